@@ -19,7 +19,8 @@ RULE = ("cases: nn op/layer/loss (functional and module forms) x geometry/mode/r
         "module form or target requiring grad for losses); distinct by hash of the whole case"
         " Also: memory layouts, nn.Parameter operands, magnitudes x128 / x1/64, a second backward through the same graph, long batches with narrow integer label dtypes, rows at far-apart levels, an interleaved training-mode call on the same batch-norm buffers before backward, momentum 0, Neuron form."
         " Round 4: the same tensor as data and weight of conv1d/conv2d/linear (FD of x -> op(x, x)); softmax/log_softmax/Flatten modules used before on an input of another rank."
-        " Round 5: a second backward(g) must add exactly the first (no finite differences involved); the graph is extended above the root and seeded with the root's live .grad.")
+        " Round 5: a second backward(g) must add exactly the first (no finite differences involved); the graph is extended above the root and seeded with the root's live .grad."
+        " Round 6: class labels counted from the end; biases of higher rank in F.linear on batched inputs.")
 ASSUMPTIONS = ["finite-difference error <= 1e-8 relative on the value grids; tolerance 1e-5*scale (float64), "
                "2e-3*scale (float32)",
                "batch-norm running statistics are re-created per forward evaluation, dropout is re-seeded, so the "
